@@ -153,6 +153,16 @@ impl Cmp {
                 if stmt_list {
                     let mut j = 0;
                     for (n, item) in i.iter().enumerate() {
+                        // a directive prologue stays one: nothing may be placed in front of it
+                        if is_directive_stmt(item) && i[..n].iter().all(is_directive_stmt) {
+                            if j >= o.len() || self.embed(item, &o[j], &format!("{path}[{n}]")).is_err() {
+                                return Err(format!(
+                                    "{path}[{n}]: a statement was placed in front of the directive prologue"
+                                ));
+                            }
+                            j += 1;
+                            continue;
+                        }
                         loop {
                             if j >= o.len() {
                                 return Err(format!("{path}[{n}]: statement missing from the output ({})", ty(item)));
@@ -367,4 +377,10 @@ fn contains_jsx(v: &Value) -> bool {
         Value::Array(a) => a.iter().any(contains_jsx),
         _ => false,
     }
+}
+
+
+/// `"use strict";`-like statement (possibly wrapped as a module item)
+fn is_directive_stmt(v: &Value) -> bool {
+    ty(v) == "ExpressionStatement" && ty(&v["expression"]) == "StringLiteral"
 }
